@@ -112,9 +112,9 @@ func writeEvidence(chk *Check, tier string, seed int, reports []harnessReport, s
 		cov["programs"] = paths
 		cov["disagreements_checked"] = sat
 	}
-	os.MkdirAll(filepath.Join(verifDir, "evidence"), 0o755)
+	os.MkdirAll(filepath.Join(outDir, "evidence"), 0o755)
 	b, _ := json.MarshalIndent(ev, "", " ")
-	if err := os.WriteFile(filepath.Join(verifDir, "evidence", chk.ID+".json"), b, 0o644); err != nil {
+	if err := os.WriteFile(filepath.Join(outDir, "evidence", chk.ID+".json"), b, 0o644); err != nil {
 		fmt.Fprintln(os.Stderr, "evidence:", err)
 	}
 }
